@@ -140,7 +140,8 @@ def run_impl(c):
         src = TabularFields(Table(num_rows=n), {nm: values_for(nm, oc.get(nm), "src", n) for nm, _ in c["src"]})
         nr = n if c["domain_ok"] else n + 1
         ref = TabularFields(Table(num_rows=nr), {nm: values_for(nm, oc.get(nm), "ref", nr) for nm, _ in c["ref"]})
-        suite = FieldDataComparator(src, ref, incl, excl)(selector, cb)
+        comparator = FieldDataComparator(src, ref, incl, excl)
+        suite = comparator(selector, cb)
     else:
         pts = np.array([[0.0, 0.0], [1.0, 0.0], [1.0, 1.0], [0.0, 1.0], [2.0, 0.0], [2.0, 1.0]])
         conn = {"TRIANGLE": np.array([[1, 4, 5], [1, 5, 2]]), "QUAD": np.array([[0, 1, 2, 3]])}
@@ -158,12 +159,22 @@ def run_impl(c):
         src = mk("src", c["src_pc"], False)
         ref = mk("ref", c["ref_pc"], not c["domain_ok"])
         if c["kind"] == "meshcmp":
-            suite = MeshFieldsComparator(src, ref, field_inclusion_filter=incl, field_exclusion_filter=excl)(selector, cb)
+            comparator = MeshFieldsComparator(src, ref, field_inclusion_filter=incl, field_exclusion_filter=excl)
         else:
-            suite = FieldDataComparator(src, ref, incl, excl)(selector, cb)
+            comparator = FieldDataComparator(src, ref, incl, excl)
+        suite = comparator(selector, cb)
     entries = sorted((comp.name, STATUS_CODE[comp.status.name]) for comp in suite)
-    return {"entries": [list(e) for e in entries], "bool": bool(suite), "fired": sorted(fired),
-            "domain": bool(suite.domain_equality_check), "len": len(suite)}
+    out = {"entries": [list(e) for e in entries], "bool": bool(suite), "fired": sorted(fired),
+           "domain": bool(suite.domain_equality_check), "len": len(suite)}
+    # the same comparator object invoked once more (e.g. a re-run with another predicate) must give the same report
+    fired2 = []
+    try:
+        suite2 = comparator(selector, lambda comp: fired2.append(comp.name))
+        out["second"] = {"entries": [list(e) for e in sorted((comp.name, STATUS_CODE[comp.status.name]) for comp in suite2)],
+                         "bool": bool(suite2), "fired": sorted(fired2)}
+    except Exception as e:  # noqa: BLE001
+        out["second"] = {"exception": f"{type(e).__name__}: {e}"}
+    return out
 
 
 def oracle(c):
@@ -288,7 +299,10 @@ def run(ctx):
         elif any(im[k] != mo[k] for k in cmpkeys):
             ctx.violation("E2", "model != implementation: " + ", ".join(k for k in cmpkeys if im[k] != mo[k]), canon,
                           found_input=False, impl=im, model=mo)
-        # metamorphic: changing the payload of non-compared fields must not change anything
+        if "second" in im and im["second"] != {k: im[k] for k in cmpkeys}:
+            ctx.violation("E4", "the same comparator object invoked a second time gives a different report", canon,
+                          impl=im, second=im["second"])
+        ctx.tie("T2 comparator object invoked twice")
         ctx.traces_validated += 1
     ctx.rule = ("random overlapping name sets (2-8 base names; tables, MeshFields with point+cell fields on 1-2 cell types, "
                 "through FieldDataComparator and MeshFieldsComparator), outcomes forced by payloads (equal, different, shape "
